@@ -4,7 +4,7 @@ CONSTANTS
   NonceWin = 10
   AgeWin = 10
   MAXV = 1000000000
-  PragueFrom = 0
+  PragueFrom = 275000
 INVARIANT TraceInv
 POSTCONDITION TraceAccepted
 CHECK_DEADLOCK FALSE
